@@ -339,6 +339,34 @@ func (x *Explorer) concretize(t *term.Term, what string) uint64 {
 		if !ok {
 			panic(abortPath{"unsupported", "concretise term with uninterpreted function: " + what})
 		}
+		// canonical order: always the smallest feasible value first, so that the decision tree does not
+		// depend on which model the solver happened to return (shards must agree on it)
+		if t.W > 0 {
+			for tries := 0; tries < 70; tries++ {
+				if r := x.env.Of(t); v <= r.Lo {
+					break
+				}
+				rs, m := x.In.S.Check(st.Cmp(term.OULt, t, st.BV(t.W, v)), true, false)
+				if rs != solve.Sat {
+					if rs == solve.Unknown {
+						x.incomplete("concretisation order undecided at " + what)
+					}
+					break
+				}
+				nv, ok2 := term.Eval(t, m)
+				if !ok2 || nv >= v {
+					break
+				}
+				v = nv
+				x.model = m
+			}
+		} else if v == 1 {
+			// Bool: false first
+			if rs, m := x.In.S.Check(st.Not(t), true, false); rs == solve.Sat {
+				v = 0
+				x.model = m
+			}
+		}
 		d := Decision{Kind: dConc, Cond: t, Val: v, Dir: true, Label: what}
 		neq := st.Not(d.pcTerm(st))
 		r, m := x.In.S.Check(neq, true, false)
@@ -667,7 +695,14 @@ func (x *Explorer) runOnce(h *ssa.Function) (outcome string) {
 	return
 }
 
+var dumpPaths = os.Getenv("ZSX_DUMP_PATHS")
+
 func (x *Explorer) sample(outcome string) {
+	if dumpPaths != "" {
+		f, _ := os.OpenFile(dumpPaths, os.O_APPEND|os.O_CREATE|os.O_WRONLY, 0644)
+		fmt.Fprintf(f, "%s %s\n", outcome, x.decString())
+		f.Close()
+	}
 	take := false
 	if len(x.Res.Samples) < x.NSamples && (outcome == "ok" || outcome == "violation") {
 		take = true
